@@ -1,4 +1,4 @@
-import AaVerif.Prep
+import AaVerif.PrepLemmas
 /-!
 # C04 — the prepare stage conserves the policy set
 
@@ -33,6 +33,42 @@ theorem C04_flat_lossless {α β : Type} (base : α → β) (paths : List α) (h
     · exact absurd hb.symm (h.1 q hq)
     · exact absurd hb (h.1 p hp')
     · exact ih h.2 hp.2 p hp' q hq hb
+
+/-- the specification starts with the core (ignore lists, groups, `profiles-*`); a configuration without
+version removals, ubuntu abstractions, flags, overwrite, full-system-policy files and drop-ins is the core -/
+theorem C04_spec_is_core (src : Listing) (ignore : List String) :
+    spec { src := src, ignore := ignore, ubuntuAbs := [], copyUbuntu := false, removed41 := [], overwrite := [],
+           full := [], flagged := [], edited := [] } = core src ignore := by
+  unfold spec core mark
+  simp
+
+/-- **Nothing leaks** (every listing, every ignore list): each entry left by ignore + flatten comes
+from a source entry that the ignore lists kept, with the same content and the same base name. -/
+theorem C04_no_leak (src : Listing) (ignore : List String) (x : Path × String) (h : x ∈ core src ignore) :
+    ∃ y ∈ src, x.2 = y.2 ∧ x.1.getLastD "" = y.1.getLastD "" := by
+  obtain ⟨y, hy, hf⟩ := core_no_leak src ignore x h
+  exact ⟨y, ignore_fold_sub ignore src y hy, hf⟩
+
+/-- **Nothing is lost** (every listing, every ignore list): when the base names of the profiles that
+survive the ignore lists are pairwise different, each of them is in the flat output directory under
+its base name, with the content of the source file. -/
+theorem C04_no_loss (src : Listing) (ignore : List String) (q : Path × String)
+    (hq : q ∈ ignore.foldl ignoreOne src)
+    (hk : (underDir isGroups q = true ∧ q.1.length = 4) ∨ (underDir isProfilesDir q = true ∧ q.1.length = 3))
+    (hu : UniqueTargets (ignore.foldl ignoreOne src)) :
+    ([aa, q.1.getLastD ""], q.2) ∈ core src ignore :=
+  core_no_loss src ignore q hq hk hu
+
+/-- abstractions, tunables and mappings are carried through -/
+theorem C04_rest_kept (src : Listing) (ignore : List String) (x : Path × String)
+    (hx : x ∈ ignore.foldl ignoreOne src) (h1 : underDir isGroups x = false) (h2 : underDir isProfilesDir x = false)
+    (hn : ∀ m ∈ moved isGroups 4 (ignore.foldl ignoreOne src) ++ moved isProfilesDir 3 (ignore.foldl ignoreOne src),
+      x.1 ≠ [aa, m.1.getLastD ""]) : x ∈ core src ignore :=
+  core_keeps_rest src ignore x hx h1 h2 hn
+
+/-- the hypothesis of `C04_no_loss` on a small tree, and what the theorem gives there -/
+example : UniqueTargets [(["apparmor.d", "groups", "a", "x"], "1"), (["apparmor.d", "profiles-s-z", "y"], "2"),
+    (["apparmor.d", "abstractions", "base"], "3")] := by unfold UniqueTargets; decide +kernel
 
 def twoGroups : Listing := [(["apparmor.d", "groups", "a", "x"], "1"), (["apparmor.d", "profiles-s-z", "x"], "2")]
 
